@@ -64,7 +64,11 @@ type Case struct {
 	Entry string                         `json:"entry,omitempty"` // "" = RenderString, "file" = NewFS().Load().Render
 	// Form is how the global condition variables are written and stored: "" plain names (ca),
 	// "hyphen" (g-ca), "dotidx" (gv.0), "bracket" (gv[0]), "nested" (gm.in.ca), "tag" (struct field
-	// by JSON tag, gs.ca), "goname" (struct field by Go name, gs.Ca).
+	// by JSON tag, gs.ca), "goname" (struct field by Go name, gs.Ca), "funcname" (the variables are
+	// named like default template functions: title, len, default ...; every name is defined, a
+	// missing one as nil), "cmp-seq" / "cmp-sne" / "cmp-eq" / "cmp-ne" (every condition variable is a
+	// bool stored as "yes" / "no" and every operand X is written X === 'yes', X !== 'no', X == 'yes',
+	// X != 'no').
 	Form string `json:"form,omitempty"`
 	// Items is the Go type of loop items: "" map[string]any, "struct" condStruct, "ptr" *condStruct
 	// (fields read by JSON tag: it1.ca).
@@ -126,11 +130,23 @@ func globalIndex(name string) int {
 	return -1
 }
 
+// funcNameOf maps the logical condition variables to names of default template functions.
+var funcNameOf = []string{"title", "len", "default", "type", "json", "string", "int", "file"}
+
+func isCmp(form string) bool { return strings.HasPrefix(form, "cmp-") }
+
 // condText writes a logical condition ([!]name, [!]loopvar.field, [!]p<k>) in the case's form.
 func condText(cond, form string) string {
 	neg := ""
 	if strings.HasPrefix(cond, "!") {
 		neg, cond = "!", cond[1:]
+	}
+	if isCmp(form) {
+		op := map[string]string{"cmp-seq": " === 'yes'", "cmp-sne": " !== 'no'", "cmp-eq": " == 'yes'", "cmp-ne": " != 'no'"}[form]
+		if neg != "" {
+			return "!(" + cond + op + ")"
+		}
+		return cond + op
 	}
 	i := globalIndex(cond)
 	if i < 0 || form == "" {
@@ -149,8 +165,19 @@ func condText(cond, form string) string {
 		return neg + "gs." + cond
 	case "goname":
 		return neg + "gs." + strings.ToUpper(cond[:1]) + cond[1:]
+	case "funcname":
+		return neg + funcNameOf[i]
 	}
 	panic("c03: unknown form " + form)
+}
+
+// probeAttrs says which truthiness consumers a probe carries next to v-show under a form:
+// comparisons are not written into plain bound attributes, and !== not into :class objects.
+func probeAttrs(form string) (attr, class bool) {
+	if isCmp(form) {
+		return false, form != "cmp-sne"
+	}
+	return true, true
 }
 
 // Out is one marker of the predicted / observed outline.
@@ -388,7 +415,14 @@ func (m *model) eval(nodes []Node, sc scope, depth int, inLoop, inChain bool) []
 			m.st.probes++
 			text := "t" + n.M + "+hidden"
 			if m.truthy(n.Cond, sc) {
-				text = "t" + n.M + "+attr+k"
+				text = "t" + n.M
+				attr, class := probeAttrs(m.c.Form)
+				if attr {
+					text += "+attr"
+				}
+				if class {
+					text += "+k"
+				}
 			}
 			out = append(out, Out{ID: n.M, Text: text})
 			prevChainEnd = false
@@ -666,9 +700,21 @@ func writeNodes(sb *strings.Builder, nodes []Node, form string) {
 			sb.WriteString(`</template></template>`)
 		case n.Kind == "probe":
 			ct := condText(n.Cond, form)
-			fmt.Fprintf(sb, `<p data-m="%s" v-show="%s" :data-x="%s" :class="{k: %s}">t%s</p>`, n.M, ct, ct, ct, n.M)
+			fmt.Fprintf(sb, `<p data-m="%s" v-show="%s"`, n.M, ct)
+			attr, class := probeAttrs(form)
+			if attr {
+				fmt.Fprintf(sb, ` :data-x="%s"`, ct)
+			}
+			if class {
+				fmt.Fprintf(sb, ` :class="{k: %s}"`, ct)
+			}
+			fmt.Fprintf(sb, `>t%s</p>`, n.M)
 		case n.Kind == "vloop":
-			fmt.Fprintf(sb, `<div data-m="%s" v-for="(vi, %s) in %s">t%s-{{ vi }}`, n.M, n.Var, n.List, n.M)
+			v := n.Var
+			if form == "funcname" {
+				v = condText(v, form)
+			}
+			fmt.Fprintf(sb, `<div data-m="%s" v-for="(vi, %s) in %s">t%s-{{ vi }}`, n.M, v, n.List, n.M)
 			writeNodes(sb, n.Kids, form)
 			sb.WriteString(`</div>`)
 		case n.Kind == "loop":
@@ -737,19 +783,32 @@ func maxFor(nodes []Node) int {
 // data builds the typed Go data of a case.
 func (c *Case) data() map[string]any {
 	d := map[string]any{}
+	cmp := isCmp(c.Form)
 	goVal := func(v vals.V) any {
-		if v.K == "missing" {
+		if v.K == "missing" || v.K == "" {
 			return nil
+		}
+		if cmp && v.K == "bool" {
+			if v.S == "true" {
+				return "yes"
+			}
+			return "no"
 		}
 		return v.Go()
 	}
 	// globals, stored the way the case's form reads them
 	switch c.Form {
-	case "":
+	case "", "cmp-seq", "cmp-sne", "cmp-eq", "cmp-ne":
 		for k, v := range c.Vars {
 			if v.K != "missing" {
-				d[k] = v.Go()
+				d[k] = goVal(v)
 			}
+		}
+	case "funcname":
+		// every name is defined (nil when the case leaves it out): an undefined word of these
+		// would denote the template function, not a variable
+		for i, name := range globalNames {
+			d[funcNameOf[i]] = goVal(c.Vars[name])
 		}
 	case "hyphen":
 		for k, v := range c.Vars {
@@ -807,7 +866,7 @@ func (c *Case) data() map[string]any {
 					if v.K == "missing" {
 						continue
 					}
-					m[k] = v.Go()
+					m[k] = goVal(v)
 				}
 				l = append(l, m)
 			}
